@@ -22,7 +22,7 @@ DehydrateSim ==
           n \in Pick(IF m THEN 1..MaxElems ELSE {1}) :
        \E lss \in {[j \in 1..n |-> RandLines(j)]} :
           DehydrateWith(IF fl THEN NoValue(oc, bk)
-                        ELSE [kind |-> k, multi |-> m, failed |-> FALSE, outcome |-> "ok", backed |-> bk, saveas |-> sa,
+                        ELSE [kind |-> k, multi |-> m, failed |-> FALSE, outcome |-> "ok", backed |-> bk, filtered |-> FALSE, saveas |-> sa,
                               elems |-> [j \in 1..n |-> Elem(lss[j], CmdOf(k, pos, j), ArgsOf(k, pos, j, m))]])
 
 CorruptSim ==
